@@ -4,12 +4,12 @@ H("c17_observables", "C17", "seq", ["harness/c17_observables.cc"], sdk=["common"
   what="real Meter / ObservableRegistry / AsyncMetricStorage / TemporalMetricStorage with 1..3 pull readers of mixed temporality and one observable counter, "
        "up-down counter or gauge (int64 and double): every history of AddCallback / RemoveCallback (3 callbacks sharing function or state pointers) / destroy instrument / "
        "script(callback: step, decrease, attribute set appears or disappears) / Collect(reader) up to the depth bound; invocation counts and every collected point "
-       "compared with a per-reader reference model",
+       "compared with a per-reader reference model; sub-run with a second instrument of the other value type sharing a (function, state) pair",
   design_ref="5/C17")
 # Synchronous gauges only exist under ABI v2: the same source (and the SDK) compiled a second time with the ABI macro redefined.
 H("c17_syncgauge", "C17", "seq", ["harness/c17_observables.cc"], sdk=["common", "version", "resource", "metrics"],
   cxxflags=["-fno-access-control", "-UOPENTELEMETRY_ABI_VERSION_NO", "-DOPENTELEMETRY_ABI_VERSION_NO=2"],
   args={"quick": [], "thorough": []},
   what="ABI v2 build: real synchronous Gauge<int64_t> / Gauge<double> with 1..3 pull readers of mixed temporality: every history of Record(value, attrs) / Collect(reader) "
-       "up to the depth bound; every collected point must be the most recently recorded value of its attribute set",
+       "(all four Record overloads) up to the depth bound; every collected point must be the most recently recorded value of its attribute set",
   design_ref="5/C17")
